@@ -44,14 +44,17 @@ tvars == <<l, bad>>
 ConnOf(s) == {s[1], s[2]}
 
 \* the datagram the event speaks about and its presentation, as records of Envelope.tla
+\* class "forged": sealed by an outsider (from = 0) under a key he can know without any secret, any key id / half
+IsForged(e) == "class" \in DOMAIN e /\ e.class = "forged"
 Dgram(e) == LET c == ConnOf(e.conn) IN
-  [conn |-> c, from |-> e.from, seq |-> 1, slot |-> 0, key |-> E!KeyAt(e.from, c, 0), half |-> E!Half(c, e.from),
+  [conn |-> c, from |-> e.from, seq |-> 1, slot |-> 0,
+   key |-> IF IsForged(e) THEN <<"known-to-everybody">> ELSE E!KeyAt(e.from, c, 0), half |-> E!Half(c, e.from),
    payload |-> 0, sealed |-> TRUE]
 Pres(e) == [d |-> Dgram(e), at |-> e.at, on |-> ConnOf(e.on), alt |-> e.alt,
             kid |-> IF e.alt = "keyid" THEN 4 ELSE 0]        \* any other key id; the family holds every single-bit change
 
 WellFormed(e) == /\ ConnOf(e.conn) \in TConns /\ ConnOf(e.on) \in TConns
-                 /\ e.from \in ConnOf(e.conn) /\ e.at \in ConnOf(e.on)
+                 /\ (e.from \in ConnOf(e.conn) \/ (IsForged(e) /\ e.from = 0)) /\ e.at \in ConnOf(e.on)
                  /\ e.alt \in E!TamperClasses \cup {E!Intact}
 
 Judge(e) ==
@@ -65,6 +68,14 @@ Judge(e) ==
          /\ e.plain \/ /\ e.panics = 0
                        /\ e.opened = (IF E!Open(Pres(e)) THEN e.members ELSE 0)
                        /\ E!MechOpen(Pres(e)) = E!Open(Pres(e))        \* (design: the mechanism agrees with the rule)
+    [] e.op = "slots" ->      \* what the key slots of the ends hold: equal material exactly where Envelope!KeyAt is equal
+         /\ Len(e.entries) >= 2
+         \* (the unused slots of ONE end may hold the same private dummy: the code draws one random dummy per end)
+         /\ \A i, j \in 1..Len(e.entries) : \A a, b \in 1..4 :
+               LET ka == E!KeyAt(e.entries[i].end, ConnOf(e.entries[i].conn), a - 1)
+                   kb == E!KeyAt(e.entries[j].end, ConnOf(e.entries[j].conn), b - 1) IN
+               /\ (ka = kb) => (e.entries[i].fps[a] = e.entries[j].fps[b])
+               /\ (e.entries[i].fps[a] = e.entries[j].fps[b]) => (ka = kb \/ (i = j /\ ka[1] = "dummy" /\ kb[1] = "dummy"))
     [] e.op = "cleartext" -> E!CleartextOK(e.found, e.plain) /\ e.windows > 0
     [] e.op = "session" -> (e.plain => e.want_plain) /\ e.cipher = e.cipher_b
     [] OTHER -> FALSE
